@@ -196,6 +196,9 @@ pub enum Pred {
     /// stateful: true for the first entry it is asked about, false from then on (the SUT
     /// reports which key that was)
     Once,
+    /// true for key 0, false for key 2 and above, and it PANICS when it is shown key 1
+    /// (the caller catches the panic and goes on using the cache)
+    PanicAt1,
 }
 
 impl Pred {
@@ -206,6 +209,7 @@ impl Pred {
             Pred::All => true,
             Pred::Never => false,
             Pred::Once => false,
+            Pred::PanicAt1 => k == 0,
         }
     }
 }
@@ -225,9 +229,17 @@ pub enum Op {
     IterAdv(u8),
     /// sync cache: create an iterator, call invalidate_all(), then consume the iterator
     IterInvAll,
+    /// insert of a value the caller's weigher panics on (weigher configured)
+    InsWP(u8),
+    /// insert of a value whose `Clone` panics (the concurrent cache clones values)
+    InsCP(u8),
 }
 
 impl Op {
+    /// does the harness hand a fresh value id to this operation?
+    pub fn takes_vid(&self) -> bool {
+        matches!(self, Op::Ins(..) | Op::InsWP(_) | Op::InsCP(_))
+    }
     pub fn kind(&self) -> &'static str {
         match self {
             Op::Ins(..) => "insert",
@@ -241,6 +253,8 @@ impl Op {
             Op::Sync => "sync",
             Op::IterAdv(_) => "iter-across-advance",
             Op::IterInvAll => "iter-across-invalidate_all",
+            Op::InsWP(_) => "insert-weigher-panics",
+            Op::InsCP(_) => "insert-clone-panics",
         }
     }
     pub fn text(&self) -> String {
@@ -256,6 +270,9 @@ impl Op {
             Op::InvIf(Pred::All) => "invif(all)".into(),
             Op::InvIf(Pred::Never) => "invif(never)".into(),
             Op::InvIf(Pred::Once) => "invif(once)".into(),
+            Op::InvIf(Pred::PanicAt1) => "invif(panic1)".into(),
+            Op::InsWP(k) => format!("inswp({k})"),
+            Op::InsCP(k) => format!("inscp({k})"),
             Op::Adv(n) => format!("adv({n})"),
             Op::Sync => "sync".into(),
             Op::IterAdv(n) => format!("iteradv({n})"),
@@ -284,6 +301,8 @@ impl Op {
                     Op::InvIf(Pred::Never)
                 } else if args == "once" {
                     Op::InvIf(Pred::Once)
+                } else if args == "panic1" {
+                    Op::InvIf(Pred::PanicAt1)
                 } else if let Some(m) = args.strip_prefix("keys:") {
                     Op::InvIf(Pred::Keys(m.parse().unwrap()))
                 } else if let Some(w) = args.strip_prefix("w:") {
@@ -296,6 +315,8 @@ impl Op {
             "sync" => Op::Sync,
             "iteradv" => Op::IterAdv(n(0)),
             "iterinvall" => Op::IterInvAll,
+            "inswp" => Op::InsWP(n(0)),
+            "inscp" => Op::InsCP(n(0)),
             _ => panic!("bad op {s}"),
         }
     }
@@ -327,6 +348,24 @@ pub enum Obs {
     Val(Option<(u32, u32)>),
     Bool(bool),
     Items(Vec<(u8, u32)>),
+    /// the caller's own callback panicked inside the call (and the caller caught it); for
+    /// a predicate: the keys it had answered `true` for before
+    CbPanic(Vec<(u8, u32)>),
+}
+
+/// Runs one call whose callback may panic with the harness marker: that panic is caught
+/// here (the application catches it and goes on using the cache); any other panic goes on.
+fn cb_guard(f: impl FnOnce()) -> bool {
+    match std::panic::catch_unwind(std::panic::AssertUnwindSafe(f)) {
+        Ok(()) => false,
+        Err(p) => {
+            if panic_msg(&p).starts_with(CB_MARK) {
+                true
+            } else {
+                std::panic::resume_unwind(p)
+            }
+        }
+    }
 }
 
 pub enum Sut {
@@ -344,7 +383,7 @@ impl Sut {
                     b = b.max_capacity(c);
                 }
                 if cfg.weigher {
-                    b = b.weigher(|_k: &K, v: &V| v.w);
+                    b = b.weigher(|_k: &K, v: &V| weigh_v(v));
                 }
                 if let Some(t) = cfg.ttl {
                     b = b.time_to_live(tick(t));
@@ -363,7 +402,7 @@ impl Sut {
                     b = b.max_capacity(c);
                 }
                 if cfg.weigher {
-                    b = b.weigher(|_k: &K, v: &V| v.w);
+                    b = b.weigher(|_k: &K, v: &V| weigh_v(v));
                 }
                 if let Some(t) = cfg.ttl {
                     b = b.time_to_live(tick(t));
@@ -430,10 +469,39 @@ impl Sut {
                     let v = chosen.borrow().clone();
                     Obs::Items(v)
                 }
+                Op::InvIf(Pred::PanicAt1) => {
+                    let trues = std::rc::Rc::new(std::cell::RefCell::new(Vec::<(u8, u32)>::new()));
+                    let tr = trues.clone();
+                    let panicked = cb_guard(|| {
+                        c.invalidate_entries_if(move |k, _v| {
+                            if k.k == 1 {
+                                panic!("{CB_MARK}: predicate");
+                            }
+                            if k.k == 0 {
+                                tr.borrow_mut().push((0, 0));
+                            }
+                            k.k == 0
+                        })
+                    });
+                    let v = trues.borrow().clone();
+                    if panicked {
+                        Obs::CbPanic(v)
+                    } else {
+                        Obs::Items(v)
+                    }
+                }
                 Op::InvIf(p) => {
                     c.invalidate_entries_if(move |k, v| p.eval(k.k, v.w));
                     Obs::Unit
                 }
+                Op::InsWP(k) => {
+                    if cb_guard(|| c.insert(K::new(k), V::new(vid, W_WEIGH_PANICS))) {
+                        Obs::CbPanic(vec![])
+                    } else {
+                        Obs::Unit
+                    }
+                }
+                Op::InsCP(_) => panic!("harness: the unsync cache never clones a value"),
                 Op::Adv(n) => {
                     clock.advance(Duration::from_millis(n as u64 * cfg.tick_ms));
                     Obs::Unit
@@ -470,6 +538,20 @@ impl Sut {
                     Obs::Unit
                 }
                 Op::InvIf(_) => panic!("harness: sync cache has no invalidate_entries_if"),
+                Op::InsWP(k) => {
+                    if cb_guard(|| c.insert(K::new(k), V::new(vid, W_WEIGH_PANICS))) {
+                        Obs::CbPanic(vec![])
+                    } else {
+                        Obs::Unit
+                    }
+                }
+                Op::InsCP(k) => {
+                    if cb_guard(|| c.insert(K::new(k), V::new(vid, W_CLONE_PANICS))) {
+                        Obs::CbPanic(vec![])
+                    } else {
+                        Obs::Unit
+                    }
+                }
                 Op::Adv(n) => {
                     clock.advance(Duration::from_millis(n as u64 * cfg.tick_ms));
                     Obs::Unit
@@ -657,6 +739,30 @@ pub fn alphabet(cfg: &Cfg) -> Vec<Op> {
                 a.push(Op::InvIf(Pred::Keys(0b001)));
                 a.push(Op::InvIf(Pred::All));
             }
+            if cfg.a > 0 {
+                a.push(Op::Adv(1));
+            }
+            if s && !cfg.autosync {
+                a.push(Op::Sync);
+            }
+        }
+        // the caller's own callbacks panic (weigher, predicate, Clone of a value), the caller
+        // catches the panic and goes on using the cache
+        "callbacks" => {
+            ins(&mut a, n);
+            per_key(&mut a, Op::Get, n);
+            per_key(&mut a, Op::Inv, n.min(2));
+            if cfg.weigher {
+                per_key(&mut a, Op::InsWP, n.min(2));
+            }
+            if s {
+                per_key(&mut a, Op::InsCP, n.min(2));
+            } else {
+                a.push(Op::InvIf(Pred::PanicAt1));
+                a.push(Op::InvIf(Pred::Keys(0b001)));
+            }
+            a.push(Op::InvAll);
+            a.push(Op::Iter);
             if cfg.a > 0 {
                 a.push(Op::Adv(1));
             }
